@@ -1,10 +1,11 @@
 import GoframeModel.Ops.SqlRead
 import GoframeModel.Std.Csv
+import GoframeModel.Lemmas.SqlRead
 /-
   C14 — SQL import reproduces the result set under the chosen NULL policy.
 -/
 namespace Goframe.C14
-open Goframe SqlRead
+open Goframe SqlRead SqlReadLemmas
 
 /-- declared type → scan type, on the property's list (and the look-alikes the substring table catches) -/
 theorem scanTy_table :
@@ -29,7 +30,7 @@ theorem scan_keeps_value :
     (∀ t, scanCell .time (.time t) = .ok (some (.time t))) ∧
     (∀ s, scanCell .string (.str s) = .ok (some (.str s))) ∧
     (∀ ty, scanCell ty .nil = .ok none) := by
-  sorry
+  refine ⟨fun _ => rfl, fun _ => rfl, fun _ => rfl, fun _ => rfl, fun _ => rfl, scanCell_nil⟩
 
 /-- the NULL policy: nil by default, the type's zero value under "zero", the per-column default (else
 nil) under a map, skip under "skip_row", an error for an unknown handler -/
@@ -47,7 +48,14 @@ theorem null_policy (col : Str) (ty : ScanTy) :
         | .skip => False)) ∧
     (handleNull .badType col ty).isErr = true ∧
     (∀ s, s ≠ sNilH → s ≠ sZero → s ≠ sSkip → (handleNull (.named s) col ty).isErr = true) := by
-  sorry
+  refine ⟨⟨_, rfl, rfl⟩, ⟨.value .nil, by simp [handleNull], rfl⟩, ⟨.skip, handleNull_skip col ty, trivial⟩,
+    ⟨_, by simp [handleNull, sZero, sNilH]; rfl, rfl⟩, ?_, rfl, ?_⟩
+  · intro m
+    cases hm : m.find? (fun kv => kv.1 == col) with
+    | none => exact ⟨.value .nil, by simp [handleNull, hm], by simp⟩
+    | some kv => exact ⟨.value kv.2, by simp [handleNull, hm], by simp⟩
+  · intro s h1 h2 h3
+    simp [handleNull, h1, h2, h3, Outcome.isErr]
 
 /-- no row contains NULL, no ParseDates: the frame is exactly the result set — one column per result
 column, one row per result row in result order -/
@@ -58,7 +66,15 @@ theorem fromRows_plain (ω : Oracle) (rs : ResultSet) (h : Handler)
     ∃ f, fromRows ω rs { handler := h, parseDates := [] } = .ok f ∧ f.RectN rs.rows.length ∧
       ∀ j name, rs.names[j]? = some name →
         f.get? name = some { name := name, data := rs.rows.map (fun r => r.getD j .nil) } := by
-  sorry
+  have hrows : readRows ω { handler := h, parseDates := [] } rs.names (rs.types.map scanTyOf) rs.errAt 0 rs.rows
+      = .ok rs.rows := by
+    rw [herr, readRows_of_rows ω _ rs.names (rs.types.map scanTyOf) some rs.rows 0]
+    · simp
+    · intro r hr
+      obtain ⟨h1, h2⟩ := hnat r hr
+      refine ⟨h1, ?_⟩
+      exact readRow_plain ω h r rs.names _ (hw r hr).symm (by simp [hwt, hw r hr]) h1 h2
+  exact fromRows_of_readRows ω rs _ rs.rows hnd hrows
 
 /-- under "skip_row" exactly the rows containing a NULL are omitted (no ParseDates) -/
 theorem skip_row_spec (ω : Oracle) (rs : ResultSet)
@@ -68,7 +84,15 @@ theorem skip_row_spec (ω : Oracle) (rs : ResultSet)
       ∀ j name, rs.names[j]? = some name →
         f.get? name = some { name := name, data :=
           (rs.rows.filter (fun r => !(r.any (fun c => c == .nil)))).map (fun r => r.getD j .nil) } := by
-  sorry
+  have hrows : readRows ω { handler := .named sSkip, parseDates := [] } rs.names (rs.types.map scanTyOf)
+      rs.errAt 0 rs.rows = .ok (rs.rows.filter (fun r => !(r.any (fun c => c == .nil)))) := by
+    rw [herr, readRows_of_rows ω _ rs.names (rs.types.map scanTyOf)
+      (fun r => if r.any (fun c => c == Cell.nil) then none else some r) rs.rows 0, filterMap_skip]
+    intro r hr
+    refine ⟨hnat r hr, ?_⟩
+    exact readRow_skip ω r rs.names _ (hw r hr).symm (by simp [hwt, hw r hr]) (hnat r hr)
+  obtain ⟨f, hf, _, hg⟩ := fromRows_of_readRows ω rs _ _ hnd hrows
+  exact ⟨f, hf, hg⟩
 
 /-- iteration error at any row, scan error, nil handle, empty query, query error: an error, never a frame -/
 theorem errors_give_no_frame (ω : Oracle) (rs : ResultSet) (o : Opts) (q : Str) :
@@ -76,7 +100,17 @@ theorem errors_give_no_frame (ω : Oracle) (rs : ResultSet) (o : Opts) (q : Str)
         (∀ r ∈ rs.rows.take k, scanRowOk (rs.types.map scanTyOf) r = true) → (fromRows ω rs o).isOk = false) ∧
     (fromSQL ω true q false rs o).isErr = true ∧ (fromSQL ω false [] false rs o).isErr = true ∧
     (fromSQL ω false q true rs o).isErr = true := by
-  sorry
+  refine ⟨?_, by simp [fromSQL, Outcome.isErr], by simp [fromSQL, Outcome.isErr], ?_⟩
+  · intro k hk hle _
+    apply fromRows_not_ok
+    rw [hk]
+    exact readRows_err ω o rs.names _ k rs.rows 0 (by omega) (by omega)
+  · unfold fromSQL
+    split
+    · rfl
+    · split
+      · rfl
+      · rfl
 
 /-- an unknown handler is reported as soon as a NULL is met (and only then) -/
 theorem unknown_handler_on_null (ω : Oracle) (rs : ResultSet) (s : Str) (pd : List Str)
@@ -84,6 +118,8 @@ theorem unknown_handler_on_null (ω : Oracle) (rs : ResultSet) (s : Str) (pd : L
     (hw : ∀ r ∈ rs.rows, r.length = rs.names.length) (hwt : rs.types.length = rs.names.length)
     (hnull : ∃ r ∈ rs.rows, .nil ∈ r) (herr : rs.errAt = none) :
     (fromRows ω rs { handler := .named s, parseDates := pd }).isOk = false := by
-  sorry
+  apply fromRows_not_ok
+  rw [herr]
+  exact readRows_unknown ω s pd rs.names _ hs (by simp [hwt]) rs.rows 0 hw hnull
 
 end Goframe.C14
